@@ -263,6 +263,15 @@ def relabel(ctx, struct, how, dim, appended=()):
         full = list(st['labels'][dim])
         full[0] = new[0]
         f = lambda: ds[k].axes[dim].__setitem__(0, new[0])
+    elif how == 'var.labels':
+        k = [k for k in st['vars'] if dim in st['vars'][k].dims][0]
+        vd = st['vars'][k].dims
+        f = lambda: setattr(ds[k], 'labels', tuple(list(new) if d == dim else list(st['labels'][d]) for d in vd))
+    elif how == 'ds.labels':
+        f = lambda: setattr(ds, 'labels', tuple(list(new) if d == dim else list(st['labels'][d]) for d in ds.dims))
+    elif how == 'var.attr':
+        k = [k for k in st['vars'] if dim in st['vars'][k].dims][0]
+        f = lambda: setattr(ds[k], dim, list(new))
     elif how == 'var.set_axis':
         k = [k for k in st['vars'] if dim in st['vars'][k].dims][0]
         f = lambda: ds[k].set_axis(list(new), axis=dim)
@@ -393,7 +402,7 @@ def templates():
         for dim in dims:
             for how in ('axis.name', 'ds.dims', 'set_axis', 'rename_axes', 'rename_axes_fn', 'var.axis.name', 'var.dims', 'rename_axes_copy'):
                 add('rename-%s-%s-%s' % (sname, dim, how), 'rename', cost=0.2, struct=sname, how=how, dim=dim)
-            for how in ('axes[d]=Axis', 'axes[d]=values', 'axes[d][i]=label', 'set_axis', 'set_axis_pos', 'attr', 'axis.values', 'var.axis[i]', 'var.set_axis', 'set_axis_copy'):
+            for how in ('axes[d]=Axis', 'axes[d]=values', 'axes[d][i]=label', 'set_axis', 'set_axis_pos', 'attr', 'axis.values', 'var.axis[i]', 'var.set_axis', 'set_axis_copy', 'var.labels', 'var.attr'):
                 add('relabel-%s-%s-%s' % (sname, dim, how), 'relabel', cost=0.3, struct=sname, how=how, dim=dim)
             add('wrongsize-%s-%s' % (sname, dim), 'wrong_size', cost=0.2, struct=sname, dim=dim)
         if len(dims) >= 2:
